@@ -266,6 +266,7 @@ func (ir *ifdReader) readMakerNotes(t Tag) {
 			buf, err := ir.fastRead(18)
 			if err != nil {
 				t.logTag(ir.logError(err)).Send()
+				return
 			}
 			if nikon.IsNikonMkNoteHeaderBytes(buf[:5]) {
 				ir.Exif.ImageType = imagetype.ImageNEF
@@ -300,26 +301,38 @@ func (ir *ifdReader) fastRead(n int) (buf []byte, err error) {
 		ir.po += uint32(n)
 		return
 	}
-	if n, err = ir.reader.Read(ir.buffer.buf[:n]); err != nil {
+	if n < 0 || n > bufferLength {
+		return nil, imagetype.ErrDataLength
+	}
+	buf = ir.buffer.buf[:n]
+	var read int
+	read, err = io.ReadFull(ir.reader, buf)
+	ir.po += uint32(read)
+	if err != nil {
 		if ir.logLevelError() {
 			ir.logError(err).Msg("Read error")
 		}
-		return
+		return nil, err
 	}
-	ir.po += uint32(n)
-	return ir.buffer.buf[:n], err
+	return buf, nil
 }
 
 // ReadUint16 reads a uint16 from an ifdReader.
 func (ir *ifdReader) readUint16(ifd ifds.Ifd) (uint16, error) {
 	buf, err := ir.fastRead(2)
-	return ifd.ByteOrder.Uint16(buf), err
+	if err != nil {
+		return 0, err
+	}
+	return ifd.ByteOrder.Uint16(buf), nil
 }
 
 // ReadUint32 reads a uint32 from an ifdReader.
 func (ir *ifdReader) readUint32(ifd ifds.Ifd) (uint32, error) {
 	buf, err := ir.fastRead(4)
-	return ifd.ByteOrder.Uint32(buf), err
+	if err != nil {
+		return 0, err
+	}
+	return ifd.ByteOrder.Uint32(buf), nil
 }
 
 func tagFromBuffer(ifd ifds.Ifd, buf []byte) (t Tag, err error) {
